@@ -156,6 +156,22 @@ fn main() {
                 let b = &deep[rng.gen_range(0..deep.len())];
                 out.rec(&rel(p, b));
             }
+            // very deep operands (up to 14 components, short common prefixes): long runs of ".." and names with '~' / '$' in them,
+            // which relative() must treat as ordinary characters
+            let names = ["a", "ab", "c", "n~", "p$q", "\u{e9}"];
+            for _ in 0..(if thorough { 40_000 } else { 4_000 }) / workers {
+                let mk = |rng: &mut StdRng, pre: &[&str]| -> String {
+                    let n = rng.gen_range(0..13usize);
+                    let mut v: Vec<&str> = pre.to_vec();
+                    for _ in 0..n {
+                        v.push(names[rng.gen_range(0..names.len())]);
+                    }
+                    format!("/{}", v.join("/"))
+                };
+                let shared: Vec<&str> = (0..rng.gen_range(0..3)).map(|_| names[rng.gen_range(0..names.len())]).collect();
+                let (p, b) = (mk(&mut rng, &shared), mk(&mut rng, &shared));
+                out.rec(&rel(&p, &b));
+            }
             // relative (non-absolute) clean operands, as in the rustdoc example
             let relp: Vec<String> = clean_paths(&["a", "ab"], 3).iter().filter(|x| x.len() > 1).map(|x| x[1..].to_string()).collect();
             for p in &relp {
